@@ -84,123 +84,77 @@ def _fmt_shape(e):
 
 
 def r1_r2_r3(ctx):
+    """The id derivation as a decision table: _id_handler (with _increment_featuretype_autoid inlined) is evaluated by the
+    partitioned dataflow for every documented form of id_spec against symbolic features; the abstract result of each
+    configuration is compared with the one the property prescribes."""
+    import collections
+    from ..absint import Interp, Sym, Opaque, Callback, AStr, Unsupported
     f = require_func(ctx, "create._DBCreator._id_handler")
-    cfg = cfg_of(f)
+    inc = require_func(ctx, "create._DBCreator._increment_featuretype_autoid")
     feat = [p for p in f.params if p != "self"]
     ctx.require(len(feat) == 1, "_id_handler signature changed")
-    fv = feat[0]
-    # ---- id_spec kinds
-    src = " ".join(norm(n.test) for n in ast.walk(f.node) if isinstance(n, ast.If))
-    for what, needle in (("a string", "isinstance(self.id_spec, str)"), ("a callable", "hasattr(self.id_spec, '__call__')"),
-                         ("a dict", "isinstance(self.id_spec, dict)")):
-        alt = needle.replace("hasattr(self.id_spec, '__call__')", "callable(self.id_spec)")
-        ok = needle in src or alt in src
-        ctx.ob("R1", ok, "id_spec given as %s is recognised" % what, func=f, sig="id_spec kind test: %s" % what if ok else "no test for id_spec as %s" % what)
-    # dict lookup by featuretype with KeyError -> autoincrement(featuretype)
-    look = [n for n in ast.walk(f.node) if isinstance(n, ast.Subscript) and norm(n.value) == "self.id_spec"]
-    ok = any(norm(n.slice) == "%s.featuretype" % fv for n in look)
-    ctx.ob("R1", ok, "a dict id_spec is looked up by the feature's featuretype", func=f,
-           sig="dict id_spec keyed by %s" % (sorted({norm(n.slice) for n in look}) or None))
-    incs = [c for c in calls_in(f.node) if call_attr(c) == "_increment_featuretype_autoid"]
-    ctx.floor("R1", len(incs), 2, "autoincrement calls in _id_handler")
-    loops = [n for n in ast.walk(f.node) if isinstance(n, ast.For)]
-    ctx.require(len(loops) == 1, "_id_handler no longer has a single loop over the id keys")
-    loop = loops[0]
-    kv = loop.target.id if isinstance(loop.target, ast.Name) else None
-    ctx.require(kv, "_id_handler loop target")
-    for c in incs:
-        a = norm(c.args[0]) if c.args else None
-        inside = loop in list(parents(c))
-        if not inside:
-            ctx.ob("R1", a == "%s.featuretype" % fv, "a feature without a usable id key is numbered per featuretype", node=c, func=f,
-                   sig="default counter base: %s" % a)
-    # after the loop: default autoincrement
-    tail = f.node.body[-1]
-    ok = isinstance(tail, ast.Return) and isinstance(tail.value, ast.Call) and call_attr(tail.value) == "_increment_featuretype_autoid" \
-        and norm(tail.value.args[0]) == "%s.featuretype" % fv
-    ctx.ob("R1", ok, "when no key yields an id the feature gets '<featuretype>_<n>'", node=tail, func=f,
-           sig="fall-through result: %s" % norm(tail))
-    # ---- inside the loop: fall through to the next key on a miss
-    breaks = [n for n in ast.walk(loop) if isinstance(n, ast.Break)]
-    ctx.ob("R1", not breaks, "a key that yields nothing falls through to the next key (no break)", node=(breaks[0] if breaks else loop), func=f,
-           sig="break in the id key loop" if breaks else "no break in the id key loop")
-    for h in [n for n in ast.walk(loop) if isinstance(n, ast.ExceptHandler)]:
-        bad = [n for n in ast.walk(h) if isinstance(n, (ast.Return, ast.Raise, ast.Break))]
-        ctx.ob("R1", not bad, "a missing/empty attribute is skipped, the next key is tried", node=h, func=f,
-               sig="except %s: %s" % (norm(h.type) if h.type else "", "falls through" if not bad else norm(bad[0])))
-    rets = [n for n in ast.walk(loop) if isinstance(n, ast.Return)]
-    kinds = {}
-    for r in rets:
-        v = r.value
-        if isinstance(v, ast.Call) and is_name(v.func, "getattr"):
-            ok = len(v.args) == 2 and is_name(v.args[0], fv) and norm(v.args[1]) == "%s[1:-1]" % kv
-            kinds["field"] = ok
-            ctx.ob("R1", ok, "':field:' keys return that column of the feature", node=r, func=f, sig="field key returns %s" % norm(v))
-            g = [norm(t) for t, pol in _guards(r, loop) if pol]
-            okg = any("%s[0] == ':'" % kv in t and "%s[-1] == ':'" % kv in t for t in g)
-            ctx.ob("R1", okg, "the ':field:' form is recognised by its leading and trailing colon", node=r, func=f,
-                   sig="field form guard: %s" % (g[0] if g else None), nontrivial=False)
-        elif isinstance(v, ast.Call) and call_attr(v) == "_increment_featuretype_autoid":
-            kinds["auto"] = r
-        elif isinstance(v, ast.Subscript) and isinstance(v.slice, ast.Constant):
-            ok = v.slice.value == 0 and norm(v.value) in ("%s.attributes[%s]" % (fv, kv), "%s[%s]" % (fv, kv))
-            kinds["attr"] = ok
-            ctx.ob("R1", ok, "an attribute key returns the attribute's first (only) value", node=r, func=f, sig="attribute key returns %s" % norm(v))
-            # R3: dominated by the multi-value rejection
-            node = cfg.node_for(r)
-            dom_ok = False
-            for n in ast.walk(f.node):
-                if isinstance(n, ast.If) and isinstance(n.test, ast.Compare) and norm(n.test.left) == "len(%s)" % norm(v.value) \
-                        and isinstance(n.test.ops[0], ast.Gt) and norm(n.test.comparators[0]) == "1" \
-                        and any(isinstance(b, ast.Raise) for b in n.body):
-                    if cfg.dominates(cfg.node_for(n).id, node.id):
-                        dom_ok = True
-            ctx.ob("R3", dom_ok, "an id attribute with several values is rejected before its first value could be used", node=r, func=f,
-                   sig="multi-value check dominates %s" % norm(r) if dom_ok else "%s not dominated by a len(...) > 1 rejection" % norm(r))
-        elif isinstance(v, ast.Name):
-            # callable result
-            g = [norm(t) for t, pol in _guards(r, loop) if pol]
-            ok = v.id in g
-            kinds["callable"] = ok
-            ctx.ob("R1", ok, "a callable's value is used only when it is truthy (None -> next key / default numbering)", node=r, func=f,
-                   sig="callable result guarded by %s" % g)
+    v, w, seqid = Sym("v", "str", True), Sym("w", "str", True), Sym("seqid", "str", True)
+
+    def run(spec, attrs, ft="gene", counters=None):
+        so = Opaque("self", "obj")
+        so.attrs["id_spec"] = spec
+        cnt = collections.defaultdict(int)
+        cnt.update(counters or {})
+        so.attrs["_autoincrements"] = cnt
+        F = Opaque("F", "Feature")
+        F.attrs.update({"attributes": attrs, "featuretype": ft, "seqid": seqid, "strand": Sym("strand", "str", True)})
+        try:
+            traces = Interp(ctx).run(f, {feat[0]: F}, self_obj=so)
+        except Unsupported as e:
+            ctx.require(False, "_id_handler outside the analysable subset: %s" % e)
+        out = []
+        for t in traces:
+            if t.result[0] == "return":
+                r = t.result[1]
+                out.append(("id", r.name if isinstance(r, Sym) else r.render() if isinstance(r, AStr) else r))
+            else:
+                out.append(("raise", t.result[1]))
+        return sorted(set(out), key=repr)
+    cb = lambda res: Callback("id_spec", res)
+    CASES = [
+        # rule, description, spec, attributes, featuretype, counters, expected
+        ("R1", "a string id_spec names the attribute whose (single) value is the id", "ID", {"ID": [v]}, "gene", None, [("id", "v")]),
+        ("R1", "a feature lacking the id attribute is numbered per featuretype", "ID", {}, "gene", None, [("id", "gene_1")]),
+        ("R1", "an id attribute with an empty value list is skipped", "ID", {"ID": []}, "gene", None, [("id", "gene_1")]),
+        ("R1", "':field:' keys return that column of the feature", ":seqid:", {}, "gene", None, [("id", "seqid")]),
+        ("R1", "keys are tried in order: the first one that yields a value wins", ["ID", "Name"], {"ID": [v], "Name": [w]}, "gene", None, [("id", "v")]),
+        ("R1", "a key that yields nothing falls through to the next key", ["ID", "Name"], {"Name": [w]}, "gene", None, [("id", "w")]),
+        ("R1", "no key yields an id: the feature gets '<featuretype>_<n>'", ["ID", "Name"], {}, "exon", None, [("id", "exon_1")]),
+        ("R1", "a dict id_spec is looked up by the feature's featuretype", {"gene": "ID", "mRNA": "Name"}, {"ID": [v], "Name": [w]}, "mRNA", None, [("id", "w")]),
+        ("R1", "a dict id_spec may map a featuretype to several keys", {"gene": ["ID", "Name"]}, {"Name": [w]}, "gene", None, [("id", "w")]),
+        ("R1", "a featuretype missing from a dict id_spec is numbered per featuretype", {"mRNA": "ID"}, {"ID": [v]}, "gene", None, [("id", "gene_1")]),
+        ("R1", "a callable's truthy result is the id", cb(v), {"ID": [w]}, "gene", None, None),
+        ("R1", "a callable returning None leads to default numbering", cb(None), {}, "gene", None, [("id", "gene_1")]),
+        ("R1", "a callable returning '' leads to default numbering", cb(""), {}, "gene", None, [("id", "gene_1")]),
+        ("R1", "a callable returning None falls through to the next key", [cb(None), "ID"], {"ID": [v]}, "gene", None, [("id", "v")]),
+        ("R2", "'autoincrement:<base>' from a callable numbers the feature per <base> (everything after the prefix)", cb("autoincrement:chr"), {}, "gene", None, [("id", "chr_1")]),
+        ("R2", "only the exact prefix 'autoincrement:' is special", cb("autoincrement"), {}, "gene", None, [("id", "autoincrement")]),
+        ("R2", "a result that merely contains the prefix is an ordinary id", cb("xautoincrement:chr"), {}, "gene", None, [("id", "xautoincrement:chr")]),
+        ("R3", "an id attribute with several values is rejected", "ID", {"ID": [v, w]}, "gene", None, [("raise", "ValueError")]),
+        ("R3", "an id attribute with several values is rejected (later key of a list)", ["Name", "ID"], {"ID": [v, w]}, "gene", None, [("raise", "ValueError")]),
+        ("R3", "an id attribute with several values is rejected (dict id_spec)", {"gene": "ID"}, {"ID": [v, w]}, "gene", None, [("raise", "ValueError")]),
+        ("R4", "numbering continues from the per-base counter (incremented before formatting)", "ID", {}, "gene", {"gene": 4}, [("id", "gene_5")]),
+        ("R4", "counters are kept per base", "ID", {}, "exon", {"gene": 4}, [("id", "exon_1")]),
+    ]
+    for rule, desc, spec, attrs, ft, counters, want in CASES:
+        got = run(spec, attrs, ft, counters)
+        if want is None:
+            # symbolic callable result: the id unless it carries the autoincrement prefix
+            ok = ("id", "v") in got and all(g == ("id", "v") or (g[0] == "id" and isinstance(g[1], str) and g[1].endswith("_1")) for g in got)
         else:
-            ctx.ob("R1", False, "every exit of the id key loop is one of the documented forms", node=r, func=f, sig="unexpected %s" % norm(r))
-    # R3 applies to every exit that uses an attribute's first value, also outside the key loop (fast paths)
-    for r in [n for n in ast.walk(f.node) if isinstance(n, ast.Return) and loop not in list(parents(n))]:
-        v = r.value
-        if isinstance(v, ast.Subscript) and isinstance(v.slice, ast.Constant) and v.slice.value == 0 and \
-                (("%s.attributes[" % fv) in norm(v.value) or norm(v.value).startswith("%s[" % fv)):
-            node = cfg.node_for(r)
-            dom_ok = False
-            for n in ast.walk(f.node):
-                if isinstance(n, ast.If) and isinstance(n.test, ast.Compare) and norm(n.test.left) == "len(%s)" % norm(v.value) \
-                        and isinstance(n.test.ops[0], ast.Gt) and norm(n.test.comparators[0]) == "1" and any(isinstance(b, ast.Raise) for b in n.body):
-                    if cfg.dominates(cfg.node_for(n).id, node.id):
-                        dom_ok = True
-            ctx.ob("R3", dom_ok, "an id attribute with several values is rejected before its first value could be used", node=r, func=f,
-                   sig="multi-value check dominates %s" % norm(r) if dom_ok else "%s not dominated by a len(...) > 1 rejection" % norm(r))
-    for k, what in (("field", "':field:' form"), ("attr", "attribute form"), ("callable", "callable form"), ("auto", "'autoincrement:X' form")):
-        ctx.ob("R1", k in kinds, "_id_handler handles the %s" % what, func=f, sig="%s %s" % (what, "present" if k in kinds else "missing"), nontrivial=False)
-    # ---- R2: prefix slice
-    if "auto" in kinds:
-        r = kinds["auto"]
-        arg = r.value.args[0] if r.value.args else None
-        pref = None
-        for t, pol in _guards(r, loop):
-            if pol and isinstance(t, ast.Call) and call_attr(t) == "startswith" and t.args and const_str(t.args[0]) is not None:
-                pref = (norm(t.func.value), const_str(t.args[0]))
-        ok = False
-        shown = norm(arg) if arg is not None else None
-        if pref and isinstance(arg, ast.Subscript) and isinstance(arg.slice, ast.Slice) and norm(arg.value) == pref[0] and arg.slice.upper is None:
-            lo = ctx.folder.try_fold(arg.slice.lower, f.module.name, default=None) if arg.slice.lower is not None else None
-            if lo is None and arg.slice.lower is not None and norm(arg.slice.lower) in ("len(%r)" % pref[1],):
-                lo = len(pref[1])
-            ok = lo == len(pref[1])
-        ctx.ob("R2", pref is not None and pref[1] == "autoincrement:", "the special callable result is recognised by the prefix 'autoincrement:'",
-               node=r, func=f, sig="autoincrement prefix %r" % (pref[1] if pref else None))
-        ctx.ob("R2", ok, "the counter base is everything after the prefix (slice starts at len(prefix))", node=r, func=f,
-               sig="counter base %s for prefix %r" % (shown, pref[1] if pref else None))
+            ok = got == want
+        show = lambda x: "id_spec=%s" % ("<callable -> %r>" % (x.result.name if isinstance(x.result, Sym) else x.result) if isinstance(x, Callback) else
+                                          "[%s]" % ", ".join(show(y)[8:] for y in x) if isinstance(x, list) else repr(x))
+        ctx.ob(rule, ok, desc, func=f,
+               sig="%s attributes=%s featuretype=%s%s -> %s" % (show(spec), {k: [getattr(x, "name", x) for x in vs] for k, vs in attrs.items()}, ft,
+                                                               " counters=%s" % counters if counters else "", got),
+               detail=None if ok else "expected %s" % (want,))
+    ctx.extra["id_handler_cases"] = len(CASES)
 
 
 def _guards(node, stop):
@@ -219,60 +173,76 @@ def _guards(node, stop):
 
 
 def r4(ctx):
+    """Generated keys '<base>_<n>': the counter routine is evaluated abstractly (start state {gene: 4} -> 'gene_5', state 5;
+    fresh base -> '<base>_1'); merge()'s own id generator is judged on the provenance of the id it assigns."""
+    import collections
+    from ..absint import Interp, Sym, Opaque, AStr, Unsupported
+    from ..flow import Flow, text_parts, show
+    from ..util import closure
     f = require_func(ctx, "create._DBCreator._increment_featuretype_autoid")
     key = [p for p in f.params if p != "self"][0]
-    cfg = cfg_of(f)
-    incs = [n for n in ast.walk(f.node) if isinstance(n, ast.AugAssign) and isinstance(n.op, ast.Add)
-            and norm(n.target) == "self._autoincrements[%s]" % key and norm(n.value) == "1"]
-    rets = [n for n in ast.walk(f.node) if isinstance(n, ast.Return)]
-    ctx.require(rets, "_increment_featuretype_autoid has no return")
-    ok = bool(incs) and all(cfg.dominates(cfg.node_for(incs[0]).id, cfg.node_for(r).id) for r in rets)
-    ctx.ob("R4", ok, "the per-base counter is incremented (by 1) before the key is formatted: numbering starts at 1", func=f,
-           sig="increment dominates the formatted return" if ok else "counter not incremented before formatting")
-    for r in rets:
-        sh = fmt_shape(r.value)
-        ok = sh == [("expr", key), "_", ("expr", "self._autoincrements[%s]" % key)]
-        ctx.ob("R4", ok, "generated keys have the form <base>_<n>", node=r, func=f, sig="key format %s" % (sh if sh is not None else norm(r.value)))
+    for start, base, want, state in (({"gene": 4}, "gene", "gene_5", 5), ({"gene": 4}, "exon", "exon_1", 1), ({}, "chr:1", "chr:1_1", 1)):
+        so = Opaque("self", "obj")
+        cnt = collections.defaultdict(int)
+        cnt.update(start)
+        so.attrs["_autoincrements"] = cnt
+        try:
+            traces = Interp(ctx).run(f, {key: base}, self_obj=so)
+        except Unsupported as e:
+            ctx.require(False, "_increment_featuretype_autoid outside the analysable subset: %s" % e)
+        res = sorted({(t.result[0], t.result[1].render() if isinstance(t.result[1], AStr) else t.result[1]) for t in traces}, key=repr)
+        ok = res == [("return", want)]
+        ctx.ob("R4", ok, "generated keys have the form <base>_<n>, n being the per-base counter after incrementing it (numbering starts at 1)", func=f,
+               sig="counter %s, base %r -> %s" % (start, base, res))
+        stores = [e for t in traces for e in t.events if e[0] == "setitem" and e[2] == base]
+        final = stores[-1][3] if stores else None
+        ctx.ob("R4", final == state, "the counter of the base is advanced by one (the next key differs)", func=f,
+               sig="counter %s, base %r: counter stored %s" % (start, base, final))
     # sibling: FeatureDB.merge's own id generator
     m = require_func(ctx, "interface.FeatureDB.merge")
-    asg = [n for n in ast.walk(m.node) if isinstance(n, ast.Assign) and any(is_name(t, "last_id") for t in n.targets)
-           and not (isinstance(n.value, ast.Constant) and n.value.value is None)]
-    ctx.floor("R4", len(asg), 1, "id generators in FeatureDB.merge")
-    mcfg = cfg_of(m)
-    for a in asg:
-        sh = fmt_shape(a.value)
-        # id generation factored into a helper method: judge the helper's returned shape, with its parameter as the base
-        if isinstance(a.value, ast.Call) and isinstance(a.value.func, ast.Attribute) and is_name(a.value.func.value, "self"):
-            hs = ctx.proj.resolve_call(a.value, m)[0]
-            if len(hs) == 1:
-                h = hs[0]
-                ctx.touch(h)
-                hp = [p_ for p_ in h.params if p_ != "self"]
-                hr = [n for n in ast.walk(h.node) if isinstance(n, ast.Return) and n.value is not None]
-                hcfg = cfg_of(h)
-                if len(hp) >= 1 and len(hr) == 1:
-                    from ..util import single_assignment
-                    res_ = lambda nm: single_assignment(h.node, nm) if nm not in hp else None
-                    hsh = fmt_shape(hr[0].value, res_)
-                    if isinstance(hr[0].value, ast.Name):
-                        v_ = single_assignment(h.node, hr[0].value.id)
-                        hsh = fmt_shape(v_, res_) if v_ is not None else hsh
-                    hinc = [n for n in ast.walk(h.node) if isinstance(n, ast.AugAssign) and norm(n.target) == "self._autoincrements[%s]" % hp[0] and norm(n.value) == "1"]
-                    okh = hsh == [("expr", hp[0]), "_", ("expr", "self._autoincrements[%s]" % hp[0])] and bool(hinc) and \
-                        hcfg.dominates(hcfg.node_for(hinc[0]).id, hcfg.node_for(hr[0]).id)
-                    ctx.ob("R4", okh, "merge() numbers its outputs with the same counters and the same <base>_<n> shape (through %s)" % h.name, node=a, func=m,
-                           sig="merge id via %s: %s" % (h.name, "base_n after increment" if okh else hsh))
+    pool = closure(ctx, m)
+    fl = Flow(ctx, pool, rows=False)
+    COUNTERS = ("attr", ("self",), "_autoincrements")
+    gens = []
+    for g in pool:
+        for n in ast.walk(g.node):
+            if isinstance(n, ast.Assign) and any(isinstance(t, ast.Attribute) and t.attr == "id" for t in n.targets):
+                for t in fl.terms(n.value, g):
+                    parts = text_parts(t) if t[0] != "const" else None
+                    if parts and len(parts) >= 2:
+                        gens.append((g, n, t, parts))
+    ctx.floor("R4", len(gens), 1, "id generators in FeatureDB.merge")
+    for g, n, t, parts in gens:
+        ok = len(parts) == 3 and parts[1] == "_" and not isinstance(parts[0], str) and parts[2] == ("index", COUNTERS, parts[0])
+        ctx.ob("R4", ok, "merge() numbers its outputs with the same counters and the same <base>_<n> shape", node=n, func=g,
+               sig="merge id format <base>_<counters[base]>" if ok else "merge id format %s" % [p if isinstance(p, str) else show(p) for p in parts])
+        if not ok:
+            continue
+        # the counter is incremented before it is used: an increment of counters[base] dominates the use
+        h = None
+        for cand in pool:
+            if any(n is x for x in ast.walk(cand.node)):
+                h = cand
+        # the formatting expression may live in a helper: look for the increment where the counter is read
+        found = False
+        for cand in pool:
+            ccfg = cfg_of(cand)
+            incs = [a for a in ast.walk(cand.node) if isinstance(a, ast.AugAssign) and isinstance(a.op, ast.Add) and isinstance(a.target, ast.Subscript)
+                    and fl.terms(a.target.value, cand) == {COUNTERS} and isinstance(a.value, ast.Constant) and a.value.value == 1]
+            incs += [a for a in ast.walk(cand.node) if isinstance(a, ast.Assign) and isinstance(a.targets[0], ast.Subscript)
+                     and fl.terms(a.targets[0].value, cand) == {COUNTERS} and isinstance(a.value, ast.BinOp) and isinstance(a.value.op, ast.Add)
+                     and isinstance(a.value.right, ast.Constant) and a.value.right.value == 1]
+            reads = [x for x in ast.walk(cand.node) if isinstance(x, ast.Subscript) and isinstance(x.ctx, ast.Load) and fl.terms(x.value, cand) == {COUNTERS}
+                     and not any(x is a.value.left or x is getattr(a, "target", None) for a in incs if isinstance(a, ast.Assign))]
+            for x in reads:
+                xn = ccfg.node_for(x)
+                if xn is None:
                     continue
-        ok = sh is not None and len(sh) == 3 and sh[1] == "_" and sh[0][0] == "expr" and sh[2] == ("expr", "self._autoincrements[%s]" % sh[0][1])
-        ctx.ob("R4", ok, "merge() numbers its outputs with the same counters and the same <base>_<n> shape", node=a, func=m,
-               sig="merge id format %s" % (sh if sh is not None else norm(a.value)))
-        if ok:
-            base = sh[0][1]
-            incs = [n for n in ast.walk(m.node) if isinstance(n, ast.AugAssign) and norm(n.target) == "self._autoincrements[%s]" % base
-                    and norm(n.value) == "1" and isinstance(n.op, ast.Add)]
-            okd = bool(incs) and any(mcfg.dominates(mcfg.node_for(i).id, mcfg.node_for(a).id) for i in incs)
-            ctx.ob("R4", okd, "merge() increments the counter before using it", node=a, func=m,
-                   sig="merge counter incremented before use" if okd else "merge counter used without a dominating increment")
+                if any(ccfg.node_for(i) is not None and ccfg.dominates(ccfg.node_for(i).id, xn.id) and ccfg.node_for(i).id != xn.id
+                       and fl.terms(i.target.slice if isinstance(i, ast.AugAssign) else i.targets[0].slice, cand) == fl.terms(x.slice, cand) for i in incs):
+                    found = True
+        ctx.ob("R4", found, "merge() increments the counter before using it", node=n, func=g,
+               sig="merge counter incremented before use" if found else "merge counter used without a dominating increment")
 
 
 def r5(ctx):
@@ -292,37 +262,64 @@ def r5(ctx):
 
 
 def r6(ctx):
+    """db[key]: evaluated abstractly for a string key and for a Feature key; on each path the statement executed, the value
+    bound to its placeholder, and the outcome for an absent / a present row are compared with the property."""
+    from ..absint import Interp, Sym, Opaque, ACond, Unsupported
     f = require_func(ctx, "interface.FeatureDB.__getitem__")
     key = [p for p in f.params if p != "self"][0]
-    cfg = cfg_of(f)
-    norm_ok = False
-    for n in ast.walk(f.node):
-        if isinstance(n, ast.If) and "isinstance(%s, Feature)" % key in norm(n.test):
-            for b in n.body:
-                if isinstance(b, ast.Assign) and is_name(b.targets[0], key) and norm(b.value) == "%s.id" % key:
-                    norm_ok = True
-    ctx.ob("R6", norm_ok, "db[feature] looks the feature up by its id", func=f, sig="Feature key -> key.id" if norm_ok else "Feature key not replaced by its id")
-    sites = execute_sites(ctx, [f])
-    ctx.floor("R6", len(sites), 1, "look-up statements in __getitem__")
-    for s in sites:
-        st = s.stmts[0] if s.stmts else None
-        ok = st is not None and st.verb == "SELECT" and st.tables() == ["features"] and st.where is not None and st.where[0] == "cmp" \
-            and st.where[1] == "=" and st.where[2][0] == "col" and st.where[2][2].lower() == "id" and st.where[3][0] == "param"
-        ctx.ob("R6", ok, "the look-up is an exact match on the primary key", node=s.call, func=f,
-               sig="look-up WHERE %s" % (S.show(st.where) if st is not None and st.where is not None else None))
-        p = s.params
-        okp = isinstance(p, ast.Tuple) and len(p.elts) == 1 and key in {x.id for x in ast.walk(p.elts[0]) if isinstance(x, ast.Name)}
-        ctx.ob("R6", okp, "the look-up binds the requested key", node=s.call, func=f, sig="look-up binds %s" % (norm(p) if p is not None else None), nontrivial=False)
-    rets = [n for n in ast.walk(f.node) if isinstance(n, ast.Return)]
-    guards = [n for n in ast.walk(f.node) if isinstance(n, ast.If) and any(isinstance(b, ast.Raise) and "FeatureNotFoundError" in norm(b) for b in n.body)]
-    ok = bool(guards) and bool(rets) and all(cfg.dominates(cfg.node_for(guards[0]).id, cfg.node_for(r).id) for r in rets)
-    t = norm(guards[0].test) if guards else None
-    okt = t in ("results is None", "not results", "results == None")
-    ctx.ob("R6", ok and okt, "an absent key raises FeatureNotFoundError before any Feature is built", func=f,
-           sig="absent key: raise under `%s` dominates the return" % t if ok and okt else "absent key not rejected (guard %s)" % t)
-    for r in rets:
-        ok = isinstance(r.value, ast.Call) and call_attr(r.value) == "_feature_returner"
-        ctx.ob("R6", ok, "the stored row is returned through _feature_returner", node=r, func=f, sig="__getitem__ returns %s" % norm(r.value), nontrivial=False)
+    sch = S.schema_from_script(ctx.folder.const("constants", "SCHEMA"))
+    n_paths = 0
+    for label, kv, want_bind in (("a string key", Sym("k", "str", True), "k"), ("a Feature key", Opaque("F", "Feature"), "F.id")):
+        try:
+            traces = Interp(ctx).run(f, {key: kv}, self_obj=Opaque("self", "obj"))
+        except Unsupported as e:
+            ctx.require(False, "__getitem__ outside the analysable subset: %s" % e)
+        for t in traces:
+            n_paths += 1
+            ex = t.executes()
+            rowdec = [d for d in t.decisions if isinstance(d[0], (ACond, Opaque)) and "fetchone" in repr(d[0])]
+            absent = None
+            for d in rowdec:
+                v, out = d[0], d[1]
+                neg = False
+                while isinstance(v, ACond) and v.op == "not":
+                    v, neg = v.left, not neg
+                if isinstance(v, ACond) and v.op == "is":
+                    absent = (out != neg)
+                elif isinstance(v, Opaque):
+                    absent = not out
+            ok_one = len(ex) >= 1
+            ctx.ob("R6", ok_one, "db[key] runs a look-up statement (%s)" % label, func=f, sig="%s: %d statement(s)" % (label, len(ex)), nontrivial=False)
+            for e in ex:
+                sqltext_ = e[1].render() if hasattr(e[1], "render") else e[1]
+                try:
+                    st = S.parse(sqltext_ if isinstance(sqltext_, str) else str(sqltext_))
+                except S.SQLError as err:
+                    ctx.ob("R6", False, "the look-up statement parses", func=f, sig="%s: look-up %s" % (label, err))
+                    continue
+                w = st.where if st.verb == "SELECT" else None
+                ok = st.verb == "SELECT" and st.tables() == ["features"] and w is not None and w[0] == "cmp" and w[1] in ("=", "==") and \
+                    {w[2][0], w[3][0]} == {"col", "param"} and (w[2] if w[2][0] == "col" else w[3])[2].lower() == "id"
+                ctx.ob("R6", ok, "the look-up is an exact match on the primary key", func=f,
+                       sig="%s: look-up WHERE %s" % (label, S.show(w) if w is not None else None))
+                params = e[2]
+                bound = [getattr(x, "name", x) for x in params] if isinstance(params, (list, tuple)) else None
+                okb = bound is not None and len(bound) == 1 and (bound[0] == want_bind or (isinstance(bound[0], str) and bound[0].startswith(want_bind + ".decode")))
+                ctx.ob("R6", okb, "the look-up binds the requested key (%s)" % ("a Feature is replaced by its id" if want_bind == "F.id" else "as given"), func=f,
+                       sig="%s: look-up binds %s" % (label, bound))
+            if absent is True:
+                ok = t.result[0] == "raise" and t.result[1] == "FeatureNotFoundError"
+                ctx.ob("R6", ok, "an absent key raises FeatureNotFoundError", func=f,
+                       sig="%s, no row: %s" % (label, "raises FeatureNotFoundError" if ok else "%s %s" % (t.result[0], t.result[1])))
+            elif absent is False:
+                cons = [e for e in t.events if e[0] == "construct" and e[1] == "feature.Feature"]
+                ok = t.result[0] == "return" and len(cons) == 1 and "fetchone" in repr(cons[0][3].get("**"))
+                ctx.ob("R6", ok, "a present key returns the Feature built from the stored row", func=f,
+                       sig="%s, row found: %s" % (label, "Feature(**row)" if ok else "%s %r" % (t.result[0], t.result[1])))
+            else:
+                ctx.ob("R6", False, "the outcome of the look-up depends on whether a row was found", func=f,
+                       sig="%s: result %s %r does not depend on the fetched row" % (label, t.result[0], t.result[1]))
+    ctx.floor("R6", n_paths, 4, "paths of __getitem__ (string/Feature key x absent/present)")
 
 
 def check(ctx):
